@@ -76,7 +76,11 @@ CLAIMED = {
          "of a sub-expression exactly once, also when the sub-expression throws. (2) The real ALT / OR (thorough: also "
          "if-then-else, nested ALT) operator graphs with the result set abandoned after 0..4 pulls and torn down, every valid control scenario, "
          "under CBMC's pointer/bounds/use-after-free checks, --memory-leak-check and the translator's UB assertions; every other claimed "
-         "harness runs under the same memory checks.",
+         "harness runs under the same memory checks. (3) The state layout the REAL builder produces: an if-then-else tree (thorough: also ALT and OR "
+         "trees) whose leaves are stub builtins is handed to tree::build_exec (build.cc: IFELSE / ALT / OR / F_BUILTIN cases, layout::add_union); "
+         "each stub operator owns state of a different size (which branch is largest rotates) filled with a pattern that is verified on every pull "
+         "and at destruction; every state reserved during the build lies inside the layout's size, no pattern is ever disturbed, and the results "
+         "equal the construct's denotation for every (input count, epoch split) of 8 (quick) / all (thorough) result-count vectors.",
          "Programs that fail to compile (parser/lexer value stack) are outside; the construct-exactly-once shadow map of the state area was not "
          "built (double construction shows up only as a leak or a use-after-free); nsw/nuw overflow flags are not asserted (DESIGN 0.6).", '0.3'),
  'C14': ("Two kernels. (a) API boundary: the real zw_* entry points of libzwerg.cc with capture_errors/allocate_error (libzwergP.hh), over stubs of "
